@@ -208,10 +208,7 @@ func runRaceNode(ri raceInput, timeout time.Duration) (ro raceOutput, reports []
 	var eb bytes.Buffer
 	cmd.Stderr = &eb
 	done := make(chan error, 1)
-	if err := cmd.Start(); err != nil {
-		infra("start race node: %v", err)
-	}
-	go func() { done <- cmd.Wait() }()
+	startChild(cmd, done, "race node")
 	select {
 	case err = <-done:
 	case <-time.After(timeout):
